@@ -14,7 +14,7 @@ branch or a loop, exceptions):
 Target: Gallina over the small exception monad of coq/theories/Model/C03_PySem.v (pyres / pbind / pget / pfold).  Every method
 becomes  gen_<name> (s : sizes) <python parameters> : pyres <result>.
 
-The abstractions (the trusted "signature table" of this translator, compared with the implementation by execution in the setq sub-checks):
+When an offset method calls an accessor the translation substitutes
   self.size_var_<kind>s()      ->  size_kind s K<kind>        (sum of that kind's per-operation variable counts)
   self.size_var_total()        ->  size_total s
   self.size_var_<kind>         ->  s K<kind>                  (as a callable: i |-> the i-th variable count, IndexError past the end)
@@ -22,6 +22,9 @@ The abstractions (the trusted "signature table" of this translator, compared wit
   calls of the other translated methods -> the regenerated functions
   dict(state=, gate=, povm=, mprocess=) -> Build_fimap ;  dict(mode=, index_operations=, index_var_local=) -> a triple
   state.dim / gate.dim / povm.dim / mprocess.dim -> dim ; len(vecs) / num_outcomes -> m     (num_variables)
+The accessors themselves (var_<kind>s, var_total, size_var_<kind>s, size_var_total, var_<kind>, size_var_<kind>, _all_qoperations) are
+translated as LAYOUTS (class Accessor below) and coq/gen/C03_SetEquiv.v proves that they compute what is substituted above; what stays
+trusted is listed at class Accessor (NumPy concatenation facts).
 
 Subset of statements: docstring; `x = e`; `x += e`; `x: T` (declares x, unbound); `if / elif / else`; `for i in range(e)`;
 `for i, _ in enumerate(x)`; `return e`; `raise IndexError|ValueError(<message>)`.  A variable that is not assigned on every path
@@ -514,6 +517,165 @@ def nv_translate(repo, path, cls, coq_name):
     return "(* from %s : %s.__init__ *)\nDefinition %s (dim m : Z) (on_para_eq_constraint : bool) : Z :=\n  (if on_para_eq_constraint then %s else %s)%%Z." % (path, cls, coq_name, br[0], br[1])
 
 
+# ---------------------------------------------------------------------------------- the accessors the offset methods are built on
+# var_<kind>s, var_total, size_var_<kind>s, size_var_total, var_<kind>(index), size_var_<kind>(index), _all_qoperations.
+# They are NumPy one-liners; what is translated is their LAYOUT: which list of operations, in which order, which operation.
+# Symbolic values:  ("ops", K)  self.<kind>s            ("vecs", K)  [x.to_var() for x in self.<kind>s]
+#                   ("vec", coq : list kind)  a vector that is the concatenation of the blocks of these kinds, in this order
+#                   ("order", coq : list kind)  a list of operations = all operations of these kinds, in this order
+#                   ("op", coq : kind * Z)  one operation        ("opvec", coq : kind * Z)  its variable vector
+#                   ("int", coq : Z)          ("mint", coq : pyres Z)
+# Trusted NumPy / Python facts (named in the manifest): np.hstack(vs) is the concatenation of vs in order and so is
+# `np.hstack(vs) if vs else np.array([])`; len of a concatenation is the sum of the lengths; sum(list) adds from 0; list + list concatenates;
+# xs[i] is the i-th element with Python's index rules (py_call_size); len(op.to_var()) is that operation's variable count.
+ACC = {}
+for _k in KINDS:
+    _pl = [p_ for p_, k_ in PLURAL.items() if k_ == _k][0]
+    ACC["var_" + _pl] = ("gen_var_%s_layout" % _pl, [], "vec")
+    ACC["size_var_" + _pl] = ("gen_size_var_%s" % _pl, [], "int")
+    ACC["var_" + _k] = ("gen_var_%s" % _k, ["index"], "opvec")
+    ACC["size_var_" + _k] = ("gen_size_var_%s" % _k, ["index"], "mint")
+ACC["var_total"] = ("gen_var_total_layout", [], "vec")
+ACC["size_var_total"] = ("gen_size_var_total", [], "int")
+ACC["_all_qoperations"] = ("gen_all_qoperations_order", [], "order")
+ACC_ORDER = (["var_" + p_ for p_ in PLURAL] + ["var_total"] + ["size_var_" + p_ for p_ in PLURAL] + ["size_var_total"]
+             + ["var_" + k_ for k_ in KINDS] + ["size_var_" + k_ for k_ in KINDS] + ["_all_qoperations"])
+
+
+class Accessor:
+    def __init__(self, fdef, done):
+        self.f, self.done = fdef, done
+        self.cname, self.params, self.rkind = ACC[fdef.name]
+
+    def call_self(self, e, env):
+        f = e.func
+        n = f.attr
+        if n not in ACC:
+            fail(e, "method self.%s" % n)
+        cn, ps, rk = ACC[n]
+        if cn not in self.done:
+            fail(e, "call of %s before its definition (translation order)" % n)
+        args = list(e.args)
+        for kw in e.keywords:
+            if kw.arg is None or kw.arg not in ps or len(args) != ps.index(kw.arg):
+                fail(e, "keyword arguments of %s" % n)
+            args.append(kw.value)
+        if len(args) != len(ps):
+            fail(e, "arity of %s" % n)
+        ctext = []
+        for a in args:
+            k_, t_ = self.ev(a, env)
+            if k_ != "int":
+                fail(e, "argument of %s" % n)
+            ctext.append(t_)
+        needs_s = rk in ("int", "mint")
+        return rk, "(%s%s%s)" % (cn, " s" if needs_s else "", "".join(" " + c for c in ctext)) if (needs_s or ctext) else cn
+
+    def ev(self, e, env):
+        if isinstance(e, ast.Name):
+            if e.id not in env:
+                fail(e, "unknown variable %s" % e.id)
+            return env[e.id]
+        if isinstance(e, ast.Attribute) and isinstance(e.value, ast.Name) and e.value.id == "self" and e.attr in PLURAL:
+            return "ops", KCON[PLURAL[e.attr]]
+        if isinstance(e, ast.ListComp):
+            if len(e.generators) != 1 or e.generators[0].ifs or e.generators[0].is_async or not isinstance(e.generators[0].target, ast.Name):
+                fail(e, "list comprehension shape")
+            g = e.generators[0]
+            k_, t_ = self.ev(g.iter, env)
+            elt = e.elt
+            if k_ == "ops" and isinstance(elt, ast.Call) and not elt.args and not elt.keywords and isinstance(elt.func, ast.Attribute) and elt.func.attr == "to_var" \
+                    and isinstance(elt.func.value, ast.Name) and elt.func.value.id == g.target.id:
+                return "vecs", t_
+            fail(e, "list comprehension")
+        if isinstance(e, ast.IfExp):
+            # np.hstack(V) if V else np.array([])
+            if isinstance(e.test, ast.Name) and self.is_np(e.body, "hstack") and len(e.body.args) == 1 and isinstance(e.body.args[0], ast.Name) \
+                    and e.body.args[0].id == e.test.id and self.is_np(e.orelse, "array") and len(e.orelse.args) == 1 \
+                    and isinstance(e.orelse.args[0], ast.List) and not e.orelse.args[0].elts:
+                k_, t_ = self.ev(e.test, env)
+                if k_ == "vecs":
+                    return "vec", "[%s]" % t_
+            fail(e, "conditional expression")
+        if isinstance(e, ast.Call):
+            if self.is_np(e, "hstack") and len(e.args) == 1 and isinstance(e.args[0], ast.List) and e.args[0].elts:
+                parts = [self.ev(x, env) for x in e.args[0].elts]
+                if any(k_ != "vec" for k_, _ in parts):
+                    fail(e, "np.hstack of something that is not a list of variable vectors")
+                return "vec", "(" + " ++ ".join(t_ for _, t_ in parts) + ")"
+            if isinstance(e.func, ast.Name) and e.func.id == "len" and len(e.args) == 1 and not e.keywords:
+                k_, t_ = self.ev(e.args[0], env)
+                if k_ == "vec":
+                    return "int", "(layout_len s %s)" % t_
+                if k_ == "opvec":
+                    return "mint", "(opref_len s %s)" % t_
+                fail(e, "len of %s" % k_)
+            if isinstance(e.func, ast.Name) and e.func.id == "sum" and len(e.args) == 1 and not e.keywords and isinstance(e.args[0], ast.List) and e.args[0].elts:
+                parts = [self.ev(x, env) for x in e.args[0].elts]
+                if any(k_ != "int" for k_, _ in parts):
+                    fail(e, "sum of non-integers")
+                out = "0"
+                for _, t_ in parts:
+                    out = "(%s + %s)" % (out, t_)
+                return "int", "%s%%Z" % out
+            if isinstance(e.func, ast.Attribute) and isinstance(e.func.value, ast.Name) and e.func.value.id == "self":
+                return self.call_self(e, env)
+            if isinstance(e.func, ast.Attribute) and e.func.attr == "to_var" and not e.args and not e.keywords:
+                k_, t_ = self.ev(e.func.value, env)
+                if k_ == "op":
+                    return "opvec", t_
+            fail(e, "call %s" % ast.unparse(e))
+        if isinstance(e, ast.Subscript):
+            k_, t_ = self.ev(e.value, env)
+            i_k, i_t = self.ev(e.slice, env)
+            if k_ == "ops" and i_k == "int":
+                return "op", "(%s, %s)" % (t_, i_t)
+            fail(e, "subscript")
+        if isinstance(e, ast.BinOp) and isinstance(e.op, ast.Add):
+            a, ta = self.ev(e.left, env)
+            b, tb = self.ev(e.right, env)
+            as_order = lambda k_, t_: t_ if k_ == "order" else "[%s]" % t_ if k_ == "ops" else fail(e, "+ of %s" % k_)
+            return "order", "(%s ++ %s)" % (as_order(a, ta), as_order(b, tb))
+        fail(e, "expression %s" % ast.unparse(e))
+
+    @staticmethod
+    def is_np(e, name):
+        return isinstance(e, ast.Call) and not e.keywords and isinstance(e.func, ast.Attribute) and e.func.attr == name \
+            and isinstance(e.func.value, ast.Name) and e.func.value.id == "np"
+
+    def translate(self):
+        f = self.f
+        if f.args.vararg or f.args.kwarg or f.args.kwonlyargs or f.args.defaults or f.decorator_list:
+            fail(f, "signature")
+        if [a.arg for a in f.args.args] != ["self"] + self.params:
+            fail(f, "parameters")
+        env = {p_: ("int", p_) for p_ in self.params}
+        result = None
+        for st in f.body:
+            if isinstance(st, ast.Expr) and isinstance(st.value, ast.Constant) and isinstance(st.value.value, str):
+                continue
+            if result is not None:
+                fail(st, "statement after return")
+            if isinstance(st, ast.Assign) and len(st.targets) == 1 and isinstance(st.targets[0], ast.Name):
+                if st.targets[0].id in self.params:
+                    fail(st, "assignment to a parameter")
+                env[st.targets[0].id] = self.ev(st.value, env)
+            elif isinstance(st, ast.Return) and st.value is not None:
+                result = self.ev(st.value, env)
+            else:
+                fail(st, "statement")
+        if result is None:
+            fail(f, "no return")
+        k_, t_ = result
+        if k_ == "ops" and self.rkind == "order":
+            k_, t_ = "order", "[%s]" % t_
+        if k_ != self.rkind:
+            fail(f, "result is %s, expected %s" % (k_, self.rkind))
+        ty = {"vec": "list kind", "order": "list kind", "opvec": "(kind * Z)", "int": "Z", "mint": "pyres Z"}[k_]
+        ps = (" (s : sizes)" if k_ in ("int", "mint") else "") + "".join(" (%s : Z)" % p_ for p_ in self.params)
+        return "Definition %s%s : %s :=\n  %s." % (self.cname, ps, ty, t_)
+
+
 HEADER = """(* GENERATED by /verif/gen/c03_py2coq.py from the current source - do not edit, not committed. *)
 From Coq Require Import ZArith List Bool String.
 From QV.Model Require Import C03_VarObj C03_SetQOps C03_PySem.
@@ -539,6 +701,16 @@ def main():
             out.append(m.translate(list(done)))
             out.append("")
             done.append(m.cname)
+        acc_done = []
+        for name in ACC_ORDER:
+            fd = [n for n in cdef[0].body if isinstance(n, ast.FunctionDef) and n.name == name]
+            if len(fd) != 1:
+                raise Unsupported("method %s not found (or defined twice)" % name)
+            a = Accessor(fd[0], list(acc_done))
+            out.append("(* from quara/objects/qoperations.py : SetQOperations.%s *)" % name)
+            out.append(a.translate())
+            out.append("")
+            acc_done.append(a.cname)
         for path, cls, cn in NV:
             out.append(nv_translate(repo, path, cls, cn))
             out.append("")
